@@ -44,6 +44,17 @@ var structOps = map[string]bool{"reroot": true, "rerootfirst": true, "unroot": t
 	"collapselen": true, "collapsesup": true, "collapsedepth": true, "removeedges": true, "collapseclade": true, "resolve": true, "rotate": true, "sort": true,
 	"removesingle": true, "subtree": true, "resolvenamed": true, "nniapply": true, "nniapplyreorderundo": true, "nniapplyrerootundo": true, "insertidentical": true, "insertidentical1": true, "graft": true, "grafttip": true, "merge": true, "shuffle": true}
 
+// bigTreeText: a tree with thousands of tips, built by a local generator from a drawn seed (one rapid draw instead of tens of
+// thousands). Sizes sit just above round numbers, where code paths meant for "large" inputs begin.
+func bigTreeText(seed int64, n int, rooted bool) string {
+	r := rand.New(rand.NewSource(seed))
+	m := RandomTree(taxa(n, "b"), r, 2+r.Intn(2), true)
+	if rooted {
+		m = rootAtRandom(m, m.all(), r)
+	}
+	return m.Newick()
+}
+
 func genTreeText(rt *rapid.T, prefix string, minTips, maxTips int, comments bool) string {
 	n := drawTaxa(rt, minTips, maxTips)
 	rooted := rapid.Bool().Draw(rt, "rooted")
